@@ -16,7 +16,8 @@
 EXTENDS VStores
 
 PhysRefs  == {"ca:n1", "ca:n2", "sa:n1", "sa:n2", "tsa:n1"}
-PhysConts == {"missing", "unrelated", "root", "tsaRoot"}
+PhysConts == {"missing", "empty", "unrelated", "root", "tsaRoot"}      \* "empty": the directory exists and holds nothing
+Unloadable(c) == c \in {"missing", "empty"}                             \* either way the store fails to load as a whole
 PType(r)  == CASE r \in {"ca:n1", "ca:n2"} -> "ca" [] r \in {"sa:n1", "sa:n2"} -> "sa" [] OTHER -> "tsa"
 PWanted(scheme) == IF scheme = "x509" THEN "ca" ELSE "sa"
 
@@ -26,7 +27,7 @@ PLoad(phys, v, i, acc) ==
   IF i > Len(v.listed) \/ acc.err THEN acc
   ELSE LET r == v.listed[i] IN
        IF r \in acc.seen \/ PType(r) # PWanted(v.scheme) THEN PLoad(phys, v, i + 1, acc)
-       ELSE IF phys[r] = "missing" THEN [acc EXCEPT !.err = TRUE]
+       ELSE IF Unloadable(phys[r]) THEN [acc EXCEPT !.err = TRUE]
        ELSE PLoad(phys, v, i + 1, [acc EXCEPT !.certs = @ \cup {phys[r]}, !.seen = @ \cup {r}])
 PAnchor(phys, v) == LET a == PLoad(phys, v, 1, [certs |-> {}, err |-> FALSE, seen |-> {}]) IN
                     IF a.err THEN "loadError" ELSE IF "root" \in a.certs THEN "found" ELSE "notFound"
@@ -39,10 +40,10 @@ Answers(phys, hist, i) == IF i > Len(hist) THEN <<>> ELSE <<Answer(phys, hist[i]
 (* declarative: a chain certificate sits in a listed store of the wanted type, and every listed store of that type loads *)
 D_Authentic(phys, v) ==
   LET W == {r \in Range(v.listed) : PType(r) = PWanted(v.scheme)} IN
-  (\E r \in W : phys[r] = "root") /\ (\A r \in W : phys[r] # "missing")
+  (\E r \in W : phys[r] = "root") /\ (\A r \in W : ~Unloadable(phys[r]))
 
 (* refinement onto VStores: the abstract four-store view of one verification *)
-AbsCont(c) == IF c = "tsaRoot" THEN "unrelated" ELSE c
+AbsCont(c) == IF c = "tsaRoot" THEN "unrelated" ELSE IF c = "empty" THEN "missing" ELSE c
 AbsRef(v, r) == IF PType(r) = PWanted(v.scheme) THEN (IF r \in {"ca:n1", "sa:n1"} THEN "W1" ELSE "W2")
                 ELSE IF PType(r) = "tsa" THEN "T1" ELSE "O1"
 Abs(phys, v) ==
